@@ -268,8 +268,9 @@ def _check_term(ctx, what, t, want):
     if _den_term(n) != want:
         ctx.viol("normalized/denotation", f"{what}: normalized {n!r} denotes {_den_term(n)}, expected {want}")
         return None
-    if n.normalized() is not n or not n.is_normalized:
-        ctx.viol("normalized/idempotent", f"{what}: normalized form {n!r} is not its own normal form")
+    nn = n.normalized()
+    if _norm_sig(nn) != _norm_sig(n) or not (nn == n) or not n.is_normalized:
+        ctx.viol("normalized/idempotent", f"{what}: normalized form {n!r} is not its own normal form ({nn!r})")
     seen = set()
     for i, (el, e) in enumerate(n.items):
         if isinstance(el, Rational):
